@@ -79,6 +79,15 @@ def cases(rng, tier):
         if not th and n > 8 and bits > 8: bits = 8
         lc = rng.choice([None, None, -1, 1, -6, 12, -(2 ** 40)])
         add(R.rpoly(rng, n, bits, lc=lc), 'random-deg-mod4=%d' % (n % 4))
+    # sparse polynomials (degree gaps >= 2 in the remainder sequence of (f, f'), odd/odd degree pairs, trinomials x^n + a x^k + b)
+    for k in range(120 if not th else 1200):
+        n = rng.randrange(4, 13 if not th else 17)
+        f = [0] * (n + 1)
+        f[n] = rng.choice([1, 1, -1, 2, -3, 5])
+        for _ in range(rng.choice([1, 2, 2, 3])):
+            f[rng.randrange(0, n)] = rng.randrange(-9, 10)
+        if f[0] == 0: f[0] = rng.choice([1, -1, 2, 7, -5])
+        add(f, 'sparse-deg-mod4=%d' % (n % 4))
     # repeated factors
     for k in range(80 if not th else 800):
         h = R.rpoly(rng, rng.randrange(1, 4), rng.choice([2, 6, 20]))
